@@ -916,6 +916,48 @@ Proof.
     destruct (q_mode q); [exact Hgoal|rewrite Hvs; exact Hgoal|rewrite Hvs; exact Hgoal].
 Qed.
 
+(** what the publishing step does, for the layers above *)
+Lemma pub_eq c t q b g :
+  IInvA c -> t_pc (c_pool c t) = PPub q b g -> s_y (c_sh c) + pub_incr q < W ->
+  b = s_y (c_sh c) /\ wf_reqI q /\
+  ((g = [] /\ s_cur (c_sh c) = e_len e /\
+    step e c t = finish e c t (with_y (c_sh c) (b + q_n q)) (c_pool c t) (LAtom t SY AAdd (q_n q) b) q (Ok PREnd))
+   \/
+   (exists cnt, cnt = N.of_nat (length g) /\ 1 <= cnt /\ cnt <= q_n q /\ b + cnt = s_cur (c_sh c) /\ b < e_len e /\
+      (cnt < q_n q -> b + cnt = e_len e) /\ (forall v, q_mode q = MSingle v -> cnt = 1) /\
+      step e c t = finish e c t (with_y (c_sh c) (b + q_n q)) (c_pool c t) (LAtom t SY AAdd (q_n q) b) q
+                          (Ok (PRGot b [mk_run (Some b) (val_of e b) cnt] cnt)))).
+Proof.
+  intros I Hpc Hw.
+  destruct (ipc_req c t q I) as [Hq Hacc]; [rewrite Hpc; reflexivity|].
+  destruct (a_wf c I t) as (Hok & Hops & Hbuf). unfold ipc_ok in Hok. rewrite Hpc in Hok. destruct Hok as (_ & _ & Hgn & Hg1).
+  assert (Tt : ticket (pcs_of c t) = Some (b, pub_incr q)) by (unfold pcs_of; rewrite Hpc; reflexivity).
+  assert (Ct : in_crit (pcs_of c t) = true) by (unfold pcs_of; rewrite Hpc; reflexivity).
+  pose proof (a_prot c I) as P.
+  pose proof (p_crit _ _ _ _ _ P t _ _ Ct Tt) as Hb.
+  pose proof (p_got _ _ _ _ _ P t _ _ Ct Tt) as [Hasc Hcur]. unfold pcs_of in Hasc, Hcur. rewrite Hpc in Hasc, Hcur. cbn [got_of] in Hasc, Hcur.
+  pose proof (p_cur _ _ _ _ _ P) as Hcl.
+  pose proof (p_pub _ _ _ _ _ P t q b g ltac:(unfold pcs_of; exact Hpc)) as Hfull.
+  rewrite (pub_incr_n q Hq) in *.
+  split; [exact Hb|]. split; [exact Hq|].
+  unfold step. rewrite Hpc. rewrite (pub_incr_n q Hq). rewrite wadd_nowrap by assumption.
+  rewrite Hasc. subst b. rewrite N.eqb_refl.
+  destruct g as [|g0 g'].
+  - left. split; [reflexivity|]. split; [destruct Hfull as [H|H]; [destruct Hq; cbn [length] in H; lia|exact H]|].
+    assert (Hm : forall v, q_mode q <> MSingle v) by (intros v Mv; specialize (Hg1 v Mv); discriminate Hg1).
+    cbn [length ascN]. destruct (q_mode q) eqn:M; [contradiction (Hm v); reflexivity|reflexivity|reflexivity].
+  - right. set (k := length (g0 :: g')) in *. exists (N.of_nat k).
+    assert (Hk1 : 1 <= N.of_nat k) by (unfold k; cbn [length]; lia).
+    assert (Hkk : exists k', k = S k') by (unfold k; cbn [length]; eauto). destruct Hkk as (k' & Ek).
+    assert (Hc : s_cur (c_sh c) = s_y (c_sh c) + N.of_nat k) by (destruct Hcur as [H|[H _]]; [exact H|discriminate H]).
+    split; [reflexivity|]. split; [exact Hk1|]. split; [exact Hgn|]. split; [lia|]. split; [lia|].
+    split; [intros Hlt; destruct Hfull as [H|H]; lia|].
+    split; [intros v Mv; specialize (Hg1 v Mv); rewrite Hg1; reflexivity|].
+    assert (Hruns : runs_of (s_y (c_sh c)) (ascN (s_y (c_sh c)) k) = [mk_run (Some (s_y (c_sh c))) (val_of e (s_y (c_sh c))) (N.of_nat k)]).
+    { rewrite Ek. rewrite runs_of_asc, val_of_iter. reflexivity. }
+    rewrite Hruns, ascN_length. rewrite Ek. cbn [ascN]. destruct (q_mode q); reflexivity.
+Qed.
+
 (** ** every step preserves the invariant *)
 
 Definition istep_nowrap (c : cfg) (t : tid) : Prop :=
